@@ -93,6 +93,29 @@ def d_multi():
                     yield d
 
 
+def d_multi_pairs():
+    """Two multi-line inline elements in one paragraph followed by short inline elements, with the continuation lines
+    indented differently (0 / 1 / 3 spaces) — per-line leading-whitespace bookkeeping across several elements."""
+    seen = set()
+    inds = ["", " ", "   "]
+    for m1 in MULTI:
+        for m2 in MULTI:
+            body = "a " + m1 + " c " + m2 + " *e* `f`"
+            ls = body.split("\n")
+            defs = "[a b]: /r\n[r]: /r\n[r s]: /r" if "[r" in body or "[a\nb]" in body else ""
+            for i1 in inds:
+                for i2 in inds:
+                    out = [ls[0]] + [(i1 if k % 2 == 1 else i2) + l for k, l in enumerate(ls[1:], 1)]
+                    d = "\n".join(out) + ("\n\n" + defs if defs else "\n")
+                    if d not in seen:
+                        seen.add(d)
+                        yield d
+                    q = "\n".join("> " + l for l in out) + ("\n\n" + defs if defs else "\n")
+                    if i1 == i2 and q not in seen:
+                        seen.add(q)
+                        yield q
+
+
 def d_pragma(corpus):
     """(pool, document with one pragma line inserted, index of the inserted line)"""
     for d in corpus:
@@ -120,6 +143,7 @@ def pools(ctx):
     out = [(n, t, None) for n, t in base]
     out.append(("wrap", pick(list(dict.fromkeys(d_wrap(corpus))), 3000), None))
     out.append(("multi", pick(list(d_multi()), 1500), None))
+    out.append(("multi-pairs", pick(list(d_multi_pairs()), 1500), None))
     for name in ("pragma-clean", "pragma-inside"):
         sel = pick([(d, k) for (p, d, k) in prag if p == name], 2000)
         out.append((name, [d for d, _ in sel], [k for _, k in sel]))
